@@ -22,10 +22,15 @@ PROBE = [0.1, 1.0 / 3.0, math.pi, 1e-3]
 
 CONST_KINDS = ["pyfloat", "pyint", "np16", "np32", "np64", "arr32", "arr64", "jnparr"]
 PLACEMENTS = ["top", "jit", "fori", "while", "scan", "scan_xs", "cond", "fn", "fn_cls", "fn_in_fn",
-              "fori_in_fn", "fn_in_fori", "cond_in_scan", "nnx_mod", "eqx_mod"]
+              "fori_in_fn", "fn_in_fori", "cond_in_scan", "nnx_mod", "eqx_mod", "fn_kw2", "fn_cls_kw2"]
+# `fn_kw2` / `fn_cls_kw2`: ONE @onnx_function (free function / class) called at TWO sites with a static
+# float keyword whose two values differ below float32 resolution; each site is a model output.
+KW_PAIRS = [(1.0e-3, 1.0e-3 + 1.0e-11), (0.1, 0.1 * (1.0 + 3.0e-9)), (math.pi, math.pi + 1.0e-9),
+            (1.0 / 3.0, 1.0 / 3.0 + 2.0e-10)]
+KW_OPS = ["mul", "div", "rdiv", "tanh", "exp", "pow"]      # the keyword enters at first order
 OPS = ["add", "mul", "div", "sub", "rsub", "rdiv", "maximum", "minimum", "where", "pow", "sqrt", "exp",
        "tanh", "mean", "dot", "linspace", "arange", "clip", "arctan2", "hamming"]
-BODY_PLACEMENTS = [p for p in PLACEMENTS if p not in ("top", "jit", "nnx_mod", "eqx_mod")]
+BODY_PLACEMENTS = [p for p in PLACEMENTS if p not in ("top", "jit", "nnx_mod", "eqx_mod", "fn_kw2", "fn_cls_kw2")]
 
 
 def make_const(kind: str, vi: int):
@@ -123,6 +128,20 @@ def fn_with_loop(x):
 
 
 @onnx_function
+def fn_kw(x, dt=1.0):
+    return apply_op(_CUR["op"], x, dt)
+
+
+@onnx_function
+class FnKwBlock(nnx.Module):
+    def __init__(self, op):
+        self.op = op
+
+    def __call__(self, x, dt=1.0):
+        return apply_op(self.op, x, dt)
+
+
+@onnx_function
 class FnBlock(nnx.Module):
     def __init__(self, op, c):
         self.op = op
@@ -192,6 +211,13 @@ def build(case: dict):
             s2 = lax.cond(s[0, 0] > 1.0, lambda v: apply_op(op, v, c), lambda v: apply_op(op, v, c2), s)
             return s2 * 0.5 + s * 0.25, jnp.sum(s2)
         return lambda x: lax.scan(body, x, None, length=2)
+    if placement == "fn_kw2":
+        a, b = KW_PAIRS[vi % len(KW_PAIRS)]
+        return lambda x: (fn_kw(x, dt=a), fn_kw(x, dt=b))
+    if placement == "fn_cls_kw2":
+        a, b = KW_PAIRS[vi % len(KW_PAIRS)]
+        kwblk = FnKwBlock(op)
+        return lambda x: (kwblk(x, dt=a), kwblk(x, dt=b))
     if placement == "nnx_mod":
         blk2 = PlainBlock(op, c)
         return lambda x: blk2(x)
